@@ -41,6 +41,12 @@ def run(ctx, replay):
         g = ctx.tlc("SharedState", "MCSharedState.cfg", consts={"Broken": b}, expect_ok=False, timeout=300, name="MCSharedState-" + b)
         if g["violated"] != inv:
             raise vcheck.Infra("vacuity guard %s not detected" % b)
+    # (f) the shared tool pipe: the mutex is released on every exit path (ToolPipe.tla)
+    ctx.tlc("ToolPipe", "MCToolPipe.cfg", consts={"Broken": "none"}, timeout=300, name="MCToolPipe")
+    for b, inv in (("noUnlockOnReadError", "NoOrphanLock"), ("unlockBeforeRead", "OwnAnswer")):
+        g = ctx.tlc("ToolPipe", "MCToolPipe.cfg", consts={"Broken": b}, expect_ok=False, timeout=300, name="MCToolPipe-" + b)
+        if g["violated"] != inv:
+            raise vcheck.Infra("vacuity guard %s not detected (%s)" % (b, g["violated"]))
     thorough = ctx.tier == "thorough"
     logdir = os.path.join(ctx.scratch, "race")
     os.makedirs(logdir)
